@@ -1,6 +1,9 @@
 // C08: slicing returns the clamped byte range for every position, count and separator.
 // substr / left / right / trim_left / trim_right / trim / before_first / after_first / before_last /
 // after_last of ST::string against ref/ref_text.h; allocation budget from common/alloc_track.h.
+// Extended: every overload incl. the char8_t forms (on const and on mutable objects), default arguments next to explicit
+// ones in every case, self-referential separators / trim sets, and a second case layout with subjects up to ~16 KB,
+// separators of 1..300 bytes (255/256/257), long trim runs and character sets of up to 40 bytes (gen/gen_long89.h).
 #include <string_theory/string>
 
 #include <climits>
@@ -8,7 +11,9 @@
 #include "common/verif.h"
 #include "common/alloc_track.h"
 #include "gen/gen_text.h"
+#include "gen/gen_long89.h"
 #include "ref/ref_text.h"
+#include "ref/ref_text_ext89.h"
 
 using verif::Case;
 
@@ -67,10 +72,11 @@ std::string reassembles(const std::string &s, const std::string &before, const s
 }
 
 // separator functions for one separator form.  F yields the four results through the given overload.
-template <class SepArg>
-std::string check_sep_form(const ST::string &ss, const std::string &S, const SepArg &arg, const std::string &seen, bool ci, const char *form) {
+// Subj is `const ST::string` or `ST::string` (overload resolution on a mutable object must end in the same functions).
+template <class SepArg, class Subj>
+std::string check_sep_form(Subj &ss, const std::string &S, const SepArg &arg, const std::string &seen, bool ci, const char *form) {
     const ST::case_sensitivity_t cs = ci ? ST::case_insensitive : ST::case_sensitive;
-    const ref::Sides f = ref::around_first(S, seen, ci), l = ref::around_last(S, seen, ci);
+    const ref::Sides f = ref::around_first(S, seen, ci), l = S.size() > 256 ? ref89::around_last(S, seen, ci) : ref::around_last(S, seen, ci);
     std::string bf, af, bl, al;
     {
         verif::alloc::LibScope ls;
@@ -102,38 +108,62 @@ std::string check_slices(const SliceCase &k) {
     const std::string &S = k.s;
     verif::Exact<char> sx(S);
     verif::Exact<char> setz(k.set, true), sepz(k.sep, true);
+    const char8_t *sepz8 = reinterpret_cast<const char8_t *>(sepz.data());
     try {
-        ST::string ss;
-        { verif::alloc::LibScope ls; ss = ST::string::from_validated(sx.data(), sx.size()); }
+        ST::string ss_;
+        { verif::alloc::LibScope ls; ss_ = ST::string::from_validated(sx.data(), sx.size()); }
+        const ST::string &ss = ss_;
 
-        // substr
+        // substr: with the count given, with the count defaulted (= to the end), and the default spelled out as ST_AUTO_SIZE
         if (k.count_default) SAME(ss.substr((ST_ssize_t)k.start), ref::substr(S, k.start, ULLONG_MAX), "substr(start)");
         else SAME(ss.substr((ST_ssize_t)k.start, (size_t)k.count), ref::substr(S, k.start, k.count), "substr(start,count)");
+        if (!k.count_default) SAME(ss.substr((ST_ssize_t)k.start), ref::substr(S, k.start, ULLONG_MAX), "substr(start) [count defaulted]");
+        else SAME(ss.substr((ST_ssize_t)k.start, ST_AUTO_SIZE), ref::substr(S, k.start, ULLONG_MAX), "substr(start, ST_AUTO_SIZE)");
         // left / right
         SAME(ss.left((size_t)k.n), ref::left(S, k.n), "left(n)");
         SAME(ss.right((size_t)k.n), ref::right(S, k.n), "right(n)");
-        // trims
-        if (k.set_default) {
+        // trims: the defaulted character set (documented: blank, tab, CR, LF) in every case, and the explicit set
+        {
             const std::string ws = " \t\r\n";
             SAME(ss.trim_left(), ref::trim_left(S, ws), "trim_left()");
             SAME(ss.trim_right(), ref::trim_right(S, ws), "trim_right()");
             SAME(ss.trim(), ref::trim(S, ws), "trim()");
-        } else {
+        }
+        if (!k.set_default) {
             SAME(ss.trim_left(setz.data()), ref::trim_left(S, k.set), "trim_left(set)");
             SAME(ss.trim_right(setz.data()), ref::trim_right(S, k.set), "trim_right(set)");
             SAME(ss.trim(setz.data()), ref::trim(S, k.set), "trim(set)");
         }
-        // separators: ST::string form sees all bytes, const char* the part before the first NUL, char a single byte
+        // separators: ST::string form sees all bytes, const char* / const char8_t* the part before the first NUL, char a single byte
         ST::string seps;
         { verif::alloc::LibScope ls; seps = ST::string::from_validated(k.sep.data(), k.sep.size()); }
         const std::string cview = ref::c_view(k.sep);
+        // a second, mutable subject object built by another route (own buffer): the char8_t overloads and the others must
+        // resolve to the same results on it
+        ST::string ms;
+        { verif::alloc::LibScope ls; ms = ST::string(sx.data(), sx.size(), ST::assume_valid); }
         for (int m = 0; m < 2; m++) {
             std::string why = check_sep_form(ss, S, seps, k.sep, m != 0, "ST::string");
             if (why.empty()) why = check_sep_form<const char *>(ss, S, sepz.data(), cview, m != 0, "const char*");
             if (why.empty() && k.sep.size() == 1) why = check_sep_form<char>(ss, S, k.sep[0], k.sep, m != 0, "char");
+            if (why.empty()) why = check_sep_form<const char8_t *>(ss, S, sepz8, cview, m != 0, "const char8_t*");
+            if (why.empty()) why = check_sep_form<const char8_t *>(ms, S, sepz8, cview, m != 0, "const char8_t*, mutable subject");
+            if (why.empty()) why = check_sep_form(ms, S, seps, k.sep, m != 0, "ST::string, mutable subject");
+            if (why.empty()) why = check_sep_form<const char *>(ms, S, sepz.data(), cview, m != 0, "const char*, mutable subject");
+            if (why.empty() && k.sep.size() == 1) why = check_sep_form<char>(ms, S, k.sep[0], k.sep, m != 0, "char, mutable subject");
+            // self-referential: the subject is its own separator (it occurs once, at 0, when not empty)
+            if (why.empty()) why = check_sep_form(ss, S, ss, S, m != 0, "ST::string = the subject itself");
+            if (why.empty()) why = check_sep_form<const char *>(ss, S, ss.c_str(), ref::c_view(S), m != 0, "const char* = the subject's own c_str()");
             if (!why.empty()) return why;
         }
-        { verif::alloc::LibScope ls; ss = ST::string(); seps = ST::string(); }
+        // ... and its own trim set (as a C string: the bytes before its first NUL)
+        {
+            const std::string own = ref::c_view(S);
+            SAME(ss.trim_left(ss.c_str()), ref::trim_left(S, own), "trim_left(own c_str())");
+            SAME(ss.trim_right(ss.c_str()), ref::trim_right(S, own), "trim_right(own c_str())");
+            SAME(ss.trim(ss.c_str()), ref::trim(S, own), "trim(own c_str())");
+        }
+        { verif::alloc::LibScope ls; ss_ = ST::string(); seps = ST::string(); ms = ST::string(); }
     } catch (const verif::budget_exceeded &b) {
         return std::string("oversized allocation attempted inside a slicing call: ") + b.what;
     } catch (...) {
@@ -195,8 +225,126 @@ std::vector<uint8_t> encode(const SliceCase &k) {
     return v;
 }
 
+void put32(std::vector<uint8_t> &v, uint32_t x) { for (int i = 0; i < 4; i++) v.push_back((uint8_t)(x >> (8 * i))); }
+// directed encoding for long fields (first bytes 0xFE 0xA5 0x5A): 32-bit lengths
+std::vector<uint8_t> encode_long(const SliceCase &k) {
+    std::vector<uint8_t> v;
+    v.push_back(0xFE); v.push_back(0xA5); v.push_back(0x5A);
+    v.push_back((uint8_t)((k.count_default ? 1 : 0) | (k.set_default ? 2 : 0)));
+    put64(v, (uint64_t)k.start); put64(v, k.count); put64(v, k.n);
+    put32(v, (uint32_t)k.s.size()); put32(v, (uint32_t)k.set.size()); put32(v, (uint32_t)k.sep.size());
+    v.insert(v.end(), k.s.begin(), k.s.end());
+    v.insert(v.end(), k.set.begin(), k.set.end());
+    v.insert(v.end(), k.sep.begin(), k.sep.end());
+    return v;
+}
+std::vector<uint8_t> encode_any(const SliceCase &k) { return (k.s.size() > 255 || k.set.size() > 255 || k.sep.size() > 255) ? encode_long(k) : encode(k); }
+
 std::string strip_nul(const std::string &s) { std::string o; for (char ch : s) if (ch) o += ch; return o; }
 std::string distinct_bytes(const std::string &s) { std::string o; for (char ch : s) if (ch && o.find(ch) == std::string::npos) o += ch; return o; }
+
+// start / count / n relative to the subject's size (shared by the two generated layouts; sv, cv, nv are one byte in the
+// original layout and two bytes in the long layout)
+void choose_positions(SliceCase &k, unsigned ssel, ull sv, unsigned csel, ull cv, unsigned nsel, ull nv, uint64_t big1, uint64_t big2, uint64_t big3) {
+    const ll n = (ll)k.s.size();
+    switch (ssel) {
+        case 0: k.start = 0; break;             case 1: k.start = 1; break;               case 2: k.start = -1; break;
+        case 3: k.start = n - 1; break;         case 4: k.start = -(n - 1); break;        case 5: k.start = n; break;
+        case 6: k.start = -n; break;            case 7: k.start = n + 1; break;           case 8: k.start = -(n + 1); break;
+        case 9: k.start = LLONG_MIN; break;     case 10: k.start = LLONG_MAX; break;      case 11: k.start = (ll)(sv % (ull)(n + 2)); break;
+        case 12: k.start = -(ll)(sv % (ull)(n + 2)); break;                                case 13: k.start = (ll)big1; break;
+        case 14: k.start = LLONG_MIN + (ll)sv; break;                                      default: k.start = LLONG_MAX - (ll)sv; break;
+    }
+    // where the slice begins (to aim the count at the exact rest)
+    ull begin = 0;
+    if (k.start < 0) { ull back = 0ull - (ull)k.start; begin = back >= (ull)n ? 0 : (ull)n - back; } else begin = (ull)k.start > (ull)n ? (ull)n : (ull)k.start;
+    const ull rest = (ull)n - begin;
+    k.count_default = false;
+    switch (csel) {
+        case 0: k.count_default = true; k.count = ULLONG_MAX; break;
+        case 1: k.count = 0; break;             case 2: k.count = 1; break;               case 3: k.count = rest; break;
+        case 4: k.count = (ull)n; break;        case 5: k.count = (ull)n + 1; break;      case 6: k.count = ULLONG_MAX; break;
+        case 7: k.count = ULLONG_MAX - 1; break;
+        case 8: k.count = ULLONG_MAX - (ull)k.start + (ull)(cv % 5) - 2; break;            // SIZE_MAX - start + d, d in -2..2 (start + count wraps around 0)
+        case 9: k.count = cv % ((ull)n + 2); break;
+        case 10: k.count = rest + (cv & 1 ? 1 : 0) - (cv & 2 && rest ? 1 : 0); break;
+        default: k.count = big2; break;
+    }
+    // n for left / right
+    switch (nsel) {
+        case 0: k.n = nv % (2 * (ull)n + 3); break;                                       // 0 .. 2*size+2
+        case 1: k.n = (ull)n; break;            case 2: k.n = (ull)n + 1 + nv % ((ull)n + 1); break;   // size < n <= 2*size+1
+        case 3: k.n = ULLONG_MAX; break;        case 4: k.n = ULLONG_MAX - 1 - nv % 4; break;
+        case 5: k.n = 2 * (ull)n + nv % 3; break;                                          case 6: k.n = n ? (ull)n - 1 : 0; break;
+        default: k.n = big3; break;
+    }
+}
+
+const char *start_label(const SliceCase &k) {
+    const ll n = (ll)k.s.size();
+    return k.start == 0 ? "start:0" : k.start > 0 ? (k.start < n ? "start:inside" : k.start == n ? "start:==size" : k.start > (1ll << 62) ? "start:near-SSIZE_MAX" : "start:>size")
+                        : ((0ull - (ull)k.start) < (ull)n ? "start:negative-inside" : (0ull - (ull)k.start) == (ull)n ? "start:==-size" : k.start < -(1ll << 62) ? "start:near-SSIZE_MIN" : "start:<-size");
+}
+const char *count_label(const SliceCase &k) {
+    const ll n = (ll)k.s.size();
+    ull begin = 0;
+    if (k.start < 0) { ull back = 0ull - (ull)k.start; begin = back >= (ull)n ? 0 : (ull)n - back; } else begin = (ull)k.start > (ull)n ? (ull)n : (ull)k.start;
+    const ull rest = (ull)n - begin;
+    return k.count_default ? "count:default" : k.count == 0 ? "count:0" : k.count < rest ? "count:<rest" : k.count == rest ? "count:==rest"
+           : k.count >= ULLONG_MAX - 1 ? "count:SIZE_MAX/-1" : (k.start > 0 && k.count >= ULLONG_MAX - (ull)k.start - 2) ? "count:SIZE_MAX-start+d" : k.count > (1ull << 62) ? "count:huge" : "count:>rest";
+}
+const char *n_label(const SliceCase &k) {
+    const ull n = k.s.size();
+    return k.n <= n ? "n:<=size" : k.n < 2 * n ? "n:size<n<2*size" : k.n >= ULLONG_MAX - 8 ? "n:SIZE_MAX(-k)" : "n:>=2*size";
+}
+
+// the long layout (leading byte 0xE0..0xFD): subject and separator from gen/gen_long89.h, padded with long runs of trim-set members
+void decode_long(verif::Reader &r, SliceCase &k, Case &c) {
+    gen89::LongPlan lp = gen89::plan_long(r);
+    unsigned ssel = (unsigned)r.range(0, 15); ull sv = r.range(0, 65535);
+    unsigned csel = (unsigned)r.range(0, 11); ull cv = r.range(0, 65535);
+    unsigned nsel = (unsigned)r.range(0, 7); ull nv = r.range(0, 65535);
+    unsigned tsel = (unsigned)r.range(0, gen89::NSETS - 1);
+    size_t runl = r.pick(gen89::RUNLEN), runr = r.pick(gen89::RUNLEN);
+    unsigned tf = r.u8();
+    uint64_t big1 = (ssel == 13) ? r.bits64() : 0, big2 = (csel == 11) ? r.bits64() : 0, big3 = (nsel == 7) ? r.bits64() : 0;
+    gen89::Long lt = gen89::build_long(lp);
+    gen89::Mix m(lp.seed * 0x9E3779B97F4A7C15ull + tsel);
+    k.set_default = tsel == 0;
+    k.set = gen89::make_set((int)tsel, lt.s, m);
+    const std::string set = k.set;       // tsel 0: the documented default, also passed to the model
+    // runs of set members around the text (a whole-string run when tf says so), optionally fenced by a byte that looks like
+    // whitespace but is not in the default set (VT, FF, NUL, NBSP / NEL bytes): trimming must stop there
+    std::string l, t;
+    if (!set.empty()) {
+        for (size_t i = 0; i < runl; i++) l += set[m.below((uint32_t)set.size())];
+        for (size_t i = 0; i < runr; i++) t += set[m.below((uint32_t)set.size())];
+    }
+    static const char fence[] = {'\v', '\f', '\0', '\xA0', '\x85', 'x'};
+    std::string body = (tf & 0x30) == 0x30 ? std::string() : lt.s;          // 1 in 4: nothing but the runs (trim removes everything)
+    if (tf & 1) body = std::string(1, fence[(tf >> 1) % sizeof fence]) + body;
+    if (tf & 0x40) body += fence[(tf >> 1) % sizeof fence];
+    k.s = l + body + t;
+    k.sep = lt.sep;
+    choose_positions(k, ssel, sv, csel, cv, nsel, nv, big1, big2, big3);
+
+    const size_t sz = k.s.size();
+    c.label("x:long-layout");
+    c.label(sz <= 300 ? "x:size:<=300" : sz <= 1500 ? "x:size:301-1500" : sz <= 4200 ? "x:size:1501-4200" : "x:size:4201+");
+    c.label(gen89::filler_name(lp.filler));
+    c.label(gen89::sep_kind_name(lp.kind));
+    { const size_t L = k.sep.size(); c.label(L < 8 ? "x:seplen:1-7" : L <= 64 ? "x:seplen:8-64" : L < 255 ? "x:seplen:65-254" : L <= 257 ? "x:seplen:255-257" : "x:seplen:258-300"); }
+    c.label(gen89::set_name((int)tsel));
+    { size_t occ = ref89::count_nonoverlapping(k.s, k.sep, true);
+      c.label(occ == 0 ? "x:occ:0" : occ == 1 ? "x:occ:1" : occ < 17 ? "x:occ:2-16" : occ < 200 ? "x:occ:17-199" : "x:occ:200+");
+      if (occ != ref89::count_nonoverlapping(k.s, k.sep, false)) c.label("x:ci-only-occurrences"); }
+    if (!k.sep.empty() && ref::starts_with(k.s, k.sep, false)) c.label("x:sep-is-prefix");
+    if (!k.sep.empty() && ref::ends_with(k.s, k.sep, false)) c.label("x:sep-ends-at-end");
+    if (sz <= 6000 && ref89::has_xor20_near_miss(k.s, k.sep)) c.label("x:ci-xor-0x20-near-miss");
+    { const std::string tl = ref::trim_left(k.s, set), tr = ref::trim_right(k.s, set);
+      if (sz - tl.size() >= 255 || sz - tr.size() >= 255) c.label("x:trim-run>=255"); }
+    if (k.start > 255 && (size_t)k.start < sz) c.label("x:start-inside>255");
+}
 
 }  // namespace
 
@@ -214,6 +362,25 @@ int verif_case(const uint8_t *data, size_t size, Case &c) {
         for (size_t i = 0; i < pl; i++) k.sep += (char)r.u8();
         k.set = strip_nul(k.set);
         c.label("directed");
+    } else if (mode == 0xFE && size >= 3 && data[1] == 0xA5 && data[2] == 0x5A) {
+        // directed, long fields (written by the enumerators): 32-bit lengths, capped
+        r.u8(); r.u8();
+        uint8_t fl = r.u8();
+        k.count_default = fl & 1; k.set_default = (fl & 2) != 0;
+        k.start = (ll)r.bits64(); k.count = r.bits64(); k.n = r.bits64();
+        size_t sl = r.bits32(), tl = r.bits32(), pl = r.bits32();
+        if (sl > (1u << 18)) sl = 1u << 18;
+        if (tl > 4096) tl = 4096;
+        if (pl > (1u << 18)) pl = 1u << 18;
+        if (sl + tl + pl > size) { sl = sl < size ? sl : size; tl = tl < size ? tl : size; pl = pl < size ? pl : size; }   // never longer than the input itself
+        k.s.reserve(sl);
+        for (size_t i = 0; i < sl; i++) k.s += (char)r.u8();
+        for (size_t i = 0; i < tl; i++) k.set += (char)r.u8();
+        for (size_t i = 0; i < pl; i++) k.sep += (char)r.u8();
+        k.set = strip_nul(k.set);
+        c.label("directed-long");
+    } else if (mode >= 0xE0 && mode <= 0xFD) {
+        decode_long(r, k, c);
     } else {
         // structural choices first, content afterwards
         gen::Plan sp = gen::plan(r, 60, 2);
@@ -244,38 +411,7 @@ int verif_case(const uint8_t *data, size_t size, Case &c) {
         }
         k.s = S;
         const ll n = (ll)S.size();
-        // start
-        switch (ssel) {
-            case 0: k.start = 0; break;             case 1: k.start = 1; break;               case 2: k.start = -1; break;
-            case 3: k.start = n - 1; break;         case 4: k.start = -(n - 1); break;        case 5: k.start = n; break;
-            case 6: k.start = -n; break;            case 7: k.start = n + 1; break;           case 8: k.start = -(n + 1); break;
-            case 9: k.start = LLONG_MIN; break;     case 10: k.start = LLONG_MAX; break;      case 11: k.start = (ll)(sv % (n + 2)); break;
-            case 12: k.start = -(ll)(sv % (n + 2)); break;                                     case 13: k.start = (ll)big1; break;
-            case 14: k.start = LLONG_MIN + (ll)sv; break;                                      default: k.start = LLONG_MAX - (ll)sv; break;
-        }
-        // where the slice begins (to aim the count at the exact rest)
-        ull begin = 0;
-        if (k.start < 0) { ull back = 0ull - (ull)k.start; begin = back >= (ull)n ? 0 : (ull)n - back; } else begin = (ull)k.start > (ull)n ? (ull)n : (ull)k.start;
-        const ull rest = (ull)n - begin;
-        k.count_default = false;
-        switch (csel) {
-            case 0: k.count_default = true; k.count = ULLONG_MAX; break;
-            case 1: k.count = 0; break;             case 2: k.count = 1; break;               case 3: k.count = rest; break;
-            case 4: k.count = (ull)n; break;        case 5: k.count = (ull)n + 1; break;      case 6: k.count = ULLONG_MAX; break;
-            case 7: k.count = ULLONG_MAX - 1; break;
-            case 8: k.count = ULLONG_MAX - (ull)k.start + (ull)(cv % 5) - 2; break;            // SIZE_MAX - start + d, d in -2..2 (start + count wraps around 0)
-            case 9: k.count = cv % ((ull)n + 2); break;
-            case 10: k.count = rest + (cv & 1 ? 1 : 0) - (cv & 2 && rest ? 1 : 0); break;
-            default: k.count = big2; break;
-        }
-        // n for left / right
-        switch (nsel) {
-            case 0: k.n = nv % (2 * (ull)n + 3); break;                                       // 0 .. 2*size+2
-            case 1: k.n = (ull)n; break;            case 2: k.n = (ull)n + 1 + nv % ((ull)n + 1); break;   // size < n <= 2*size+1
-            case 3: k.n = ULLONG_MAX; break;        case 4: k.n = ULLONG_MAX - 1 - nv % 4; break;
-            case 5: k.n = 2 * (ull)n + nv % 3; break;                                          case 6: k.n = n ? (ull)n - 1 : 0; break;
-            default: k.n = big3; break;
-        }
+        choose_positions(k, ssel, sv, csel, cv, nsel, nv, big1, big2, big3);
         // separator
         const size_t sz = S.size();
         switch (psel) {
@@ -294,11 +430,9 @@ int verif_case(const uint8_t *data, size_t size, Case &c) {
         c.label(gen::size_label(S.size()));
         if (gen::has_nul(S)) c.label("s:has-NUL");
         if (st.alpha == gen::A_RAW) c.label("s:raw-bytes"); else if (gen::has_high(S)) c.label("s:multibyte");
-        c.label(k.start == 0 ? "start:0" : k.start > 0 ? (k.start < n ? "start:inside" : k.start == n ? "start:==size" : k.start > (1ll << 62) ? "start:near-SSIZE_MAX" : "start:>size")
-                             : ((0ull - (ull)k.start) < (ull)n ? "start:negative-inside" : (0ull - (ull)k.start) == (ull)n ? "start:==-size" : k.start < -(1ll << 62) ? "start:near-SSIZE_MIN" : "start:<-size"));
-        c.label(k.count_default ? "count:default" : k.count == 0 ? "count:0" : k.count < rest ? "count:<rest" : k.count == rest ? "count:==rest"
-                : k.count >= ULLONG_MAX - 1 ? "count:SIZE_MAX/-1" : (k.start > 0 && k.count >= ULLONG_MAX - (ull)k.start - 2) ? "count:SIZE_MAX-start+d" : k.count > (1ull << 62) ? "count:huge" : "count:>rest");
-        c.label(k.n <= (ull)n ? "n:<=size" : k.n < 2 * (ull)n ? "n:size<n<2*size" : k.n >= ULLONG_MAX - 8 ? "n:SIZE_MAX(-k)" : "n:>=2*size");
+        c.label(start_label(k));
+        c.label(count_label(k));
+        c.label(n_label(k));
         { const std::string set = k.set_default ? std::string(" \t\r\n") : k.set; std::string t = ref::trim(S, set);
           c.label(t.size() == S.size() ? "trim:nothing" : t.empty() ? "trim:everything" : (ref::trim_left(S, set).size() < S.size() && ref::trim_right(S, set).size() < S.size()) ? "trim:both-ends" : "trim:one-end"); }
         c.label(k.sep.empty() ? "sep:empty" : k.sep.size() == 1 ? "sep:1-byte(char form)" : "sep:2+bytes");
@@ -322,7 +456,7 @@ long verif_enumerate(int shard, int nshards, int tier, verif::EnumReport &r) {
     static const char LETTERS[] = "abcdefghijklmnopqrstuvwxyz";
     std::vector<uint8_t> cur;
     auto run = [&](const SliceCase &k) -> bool {
-        cur = encode(k); verif::set_current(cur.data(), cur.size());
+        cur = encode_any(k); verif::set_current(cur.data(), cur.size());
         r.evaluations++;
         if (classify(k).any()) r.nontrivial++;
         std::string why = check_slices(k);
@@ -352,7 +486,61 @@ long verif_enumerate(int shard, int nshards, int tier, verif::EnumReport &r) {
         for (ull n = 0; n <= 2 * (ull)len + 2; n++) { k.n = n; if (!run(k)) return r.evaluations; }
         for (ull j = 0; j <= 2; j++) { k.n = ULLONG_MAX - j; if (!run(k)) return r.evaluations; }
     }
+    // ---- separator-length sweep: every length 1..300 of a ruler / a run of distinct punctuation that occurs nowhere else in
+    // ordinary text; twice inside, as prefix and exact suffix, one byte short (absent), one byte long (first and last
+    // occurrence one apart), after a look-alike with every byte XOR 0x20
+    {
+        const std::string A = "The quick brown fox ", B = " jumps over the lazy dog; ", C = " and runs away.\n";
+        for (int L = 1 + shard; L <= 300; L += nshards) {
+            for (int kind = 0; kind < 2; kind++) {
+                gen89::Mix m(0);
+                const std::string sep = gen89::make_sep(m, kind == 0 ? gen89::P_RULER : gen89::P_DISTINCT, (size_t)L);
+                std::string alike = sep; for (char &ch : alike) ch = (char)(ch ^ 0x20);
+                const std::string subj[6] = {A + sep + B + sep + C, sep + B + sep, A + sep.substr(0, sep.size() - 1) + B, A + sep + sep.substr(0, 1) + B,
+                                             A + alike + B + sep + C, sep};
+                for (int v = 0; v < 6; v++) {
+                    SliceCase k; k.s = subj[v]; k.sep = sep; k.set_default = false; k.set = sep.substr(0, 1) + "T\n";
+                    k.start = (ll)A.size(); k.count = (ull)L; k.count_default = false; k.n = (ull)L + (ull)v;
+                    if (!run(k)) return r.evaluations;
+                    if (r.samples.size() < 2 && L == 256 && v == 0) r.samples.push_back(render(k));
+                }
+            }
+        }
+    }
+    // ---- positions beyond 255 and beyond 65535: a 70001-byte subject, separator planted around offset 65536 and at the very end
+    {
+        static const ll STARTS[] = {255, 256, 257, 65535, 65536, 65537, -65536, -65537, 70000, -70001};
+        static const ull COUNTS[] = {1, 256, 65536, 65537};
+        static const size_t OFFS[] = {65533, 65536, 69998};
+        int idx = 0;
+        for (size_t off : OFFS) for (ll st : STARTS) for (ull cnt : COUNTS) {
+            if (idx++ % nshards != shard) continue;
+            SliceCase k; k.s.reserve(70001);
+            for (size_t i = 0; i < 70001; i++) k.s += (char)('a' + (i * 7 + i / 61) % 26);
+            k.sep = "<#>"; k.s.replace(off, 3, k.sep); if (off != 65536) k.s.replace(300, 3, k.sep);
+            k.start = st; k.count = cnt; k.count_default = false; k.n = cnt == 1 ? 70000 : cnt - 1; k.set_default = false; k.set = "abcdefghijklmnopqrstuvwxy";
+            if (!run(k)) return r.evaluations;
+        }
+    }
+    // ---- trim runs of every length 0..300, 600, 4096, 70000 on both sides, default and explicit sets, and nothing but the run
+    {
+        std::vector<size_t> runs; for (size_t R = 0; R <= 300; R++) runs.push_back(R);
+        runs.push_back(600); runs.push_back(4096); runs.push_back(70000);
+        for (size_t ri = (size_t)shard; ri < runs.size(); ri += (size_t)nshards) {
+            const size_t R = runs[ri];
+            std::string lrun, rrun; for (size_t i = 0; i < R; i++) { lrun += " \t\r\n"[i % 4]; rrun += "\n \r\t"[(i / 3) % 4]; }
+            const std::string bodies[3] = {"x\vy", "", std::string("\0z\f", 3)};
+            for (int b = 0; b < (R > 600 ? 2 : 3); b++) for (int t = 0; t < 3; t++) {    // (a NUL body makes the subject's own C view a 70000-byte periodic run: quadratic for the naive oracle)
+                SliceCase k; k.s = lrun + bodies[b] + rrun; k.sep = "\r\n"; k.n = R; k.start = (ll)R; k.count_default = true;
+                k.set_default = t == 0; k.set = t == 0 ? " \t\r\n" : t == 1 ? "\n\r \t" : gen89::SET_LONG;
+                if (!run(k)) return r.evaluations;
+            }
+        }
+    }
     if (shard == 0) {
+        r.exhausted.push_back("separators (a ruler of dashes, a run of distinct punctuation) of every length 1..300 in ordinary text: twice inside, as prefix and exact suffix, one byte short, one byte long, after an all-bytes-XOR-0x20 look-alike, equal to the subject; every overload, both case modes");
+        r.exhausted.push_back("a 70001-byte subject x start in {+-255..257, +-65535..65537, 70000, -70001} x count in {1, 256, 65536, 65537} x separator at offset 65533 / 65536 / 69998 (end)");
+        r.exhausted.push_back("whitespace runs of every length 0..300, 600, 4096, 70000 on both sides of {\"x\\vy\", \"\", \"\\0z\\f\"} x trim set in {default, explicit whitespace, 33-byte set}");
         r.exhausted.push_back("strings \"abc...\" of every length 0..18 x start in -(len+2)..len+2, SSIZE_MIN, SSIZE_MIN+1, SSIZE_MAX-1, SSIZE_MAX x count in 0..len+2, SIZE_MAX-0..len+3, SIZE_MAX-start-2..+2, default");
         r.exhausted.push_back("left(n)/right(n) for every n in 0..2*len+2 and SIZE_MAX-0..2, len 0..18");
     }
@@ -364,4 +552,6 @@ void verif_corpus(std::vector<std::vector<uint8_t>> &out) {
     k.s = "xx::yy::zz"; k.start = 2; k.count = ULLONG_MAX - 1; k.count_default = false; k.sep = "::"; out.push_back(encode(k));
     k.s = std::string("  \t a\0b \n", 9); k.start = -3; k.count = 2; k.sep = std::string("\0", 1); out.push_back(encode(k));
     out.push_back({1, 2, 3, 4, 5, 6, 7, 8, 9, 10, 11, 12, 13, 14, 15, 16, 17, 18, 19, 20});
+    out.push_back({0xE0, 6, 2, 1, 0, 0, 1, 1, 3, 0x11, 0x22, 0x33, 0x44, 0x55, 0x66, 0x77, 0x88, 5, 0, 1, 3, 0, 1, 0, 0, 0, 2, 7, 8, 0x41});   // long layout: 1024-byte text, 255-byte ruler
+    out.push_back({0xE1, 0, 90, 0, 4, 3, 12, 4, 7, 9, 8, 7, 6, 5, 4, 3, 2, 11, 44, 1, 9, 17, 0, 2, 33, 0, 3, 9, 10, 0x95});                   // long layout: case-neighbour text, letters+neighbours separator
 }
